@@ -228,6 +228,10 @@ func (g *Gen) SimpleFilter() *jpref.Eq {
 		// membership in a list that comes from the data
 		return Bin("in", CInt(int64(1+g.R.Intn(30))), P(At(), Child(k)))
 	case 12:
+		if g.R.Intn(2) == 0 {
+			// true whenever @.k is a non-empty list: its own first (or last) member is in it
+			return Bin("in", P(At(), Child(k), Nth(g.R.Intn(2)-1)), P(At(), Child(k)))
+		}
 		return Bin("in", P(At(), Child(k)), P(At(), Child(k2)))
 	case 8:
 		// two multi-valued operands: true if ANY pairing satisfies the comparison
